@@ -87,7 +87,7 @@ check(
 check(
     "C06",
     "exhaustive bounded enumeration of citation-kind sequences (real extracted objects) + property-based testing on extracted lists; partition-validity oracle with independent equality",
-    "Exhaustive over all sequences up to length 4 (quick) / 5 (thorough) of a 31-letter alphabet of real citation "
+    "Exhaustive over all sequences up to length 4 (quick) / 5 (thorough) of a 32-letter alphabet of real citation "
     "objects, plus lists extracted from generated documents; the output mapping is checked as a faithful ordered "
     "partition with an equality decided independently of __eq__/__hash__; short sequences are resolved again together "
     "with copies / pickles of their full citations.",
